@@ -62,7 +62,8 @@ PROP = dict(
     lean_modules=["MM.Props.C32"],
     extract_files={"MM/Gen/LockC32.lean": {"cmd": ["go", "run", "{VERIF}/tools/lockshape.go", "LockC32",
         "{REPO}/internal/peer/manager.go",
-        "Manager.registerConnection,Manager.handleDisconnect,Manager.Disconnect,Manager.DisconnectAll", "mu", "peers"]}},
+        "Manager.registerConnection,Manager.handleDisconnect,Manager.Disconnect,Manager.DisconnectAll", "mu", "peers"]},
+        "MM/Gen/CallsC32.lean": {"cmd": ["go", "run", "{VERIF}/tools/c32_calls.go", "CallsC32", "{REPO}/internal/peer/manager.go"]}},
     theorems=[
         "MM.C32.reachable_inv",
         "MM.C32.C32_at_most_one",
@@ -74,12 +75,13 @@ PROP = dict(
         "MM.C32.LockTie.C32_lock_register_atomic",
         "MM.C32.LockTie.C32_lock_teardown_atomic",
         "MM.C32.LockTie.C32_lock_disconnect_atomic",
+        "MM.C32.LockTie.C32_calls_decision_then_callback",
     ],
     spec=True,
     timeout=900,
     chunk=300,
     rule="scripted schedules on a REAL Agent (agent.New) and its real peer.Manager with the agent's real OnPeerConnected/OnPeerDisconnect: "
-         "handshakes in both directions over an in-memory transport (duplicates included), frames on registered and rejected connections, "
+         "handshakes in both directions through the agent's own accept/connect paths (Agent.handleIncomingConnection, Agent.connectToPeer) over an in-memory transport (duplicates included), frame handlers held by the script, frames on registered and rejected connections, "
          "keepalive timeouts by the real keepalive loop, remote closes, Disconnect, DisconnectAll; the transport holds the read error of a closed "
          "connection until the script releases it, and the hook peer.Manager.handleDisconnect:done orders teardowns against re-registration. "
          "Observed: which connection is registered, delivered/dropped, routes and relay entries per peer; compared with the Lean LTS. "
